@@ -26,15 +26,16 @@ SIGMA12 = [b"(", b")", b"\\", b"<", b">", b"/", b"#", b"%", b"\r", b"\n", b"1", 
 SIGMA_X = [b"\t", b"\x0c", b"7", b"e", b"R", b"\xff", b"0", b"9", b"f", b"b"]
 
 BOUNDS = {
-    "quick": {"sigma_len": 4, "sigma12_len": 5, "sigx_len": 3},
-    "thorough": {"sigma_len": 5, "sigma12_len": 6, "sigx_len": 4},
+    "quick": {"sigma_len": 4, "sigma12_len": 5, "sigx_len": 3, "seek_len": 3},
+    "thorough": {"sigma_len": 5, "sigma12_len": 6, "sigx_len": 4, "seek_len": 4},
 }
 
 META = {
     "rule": (
         "every string over the 26-symbol class alphabet up to sigma_len, over the 13 state-steering symbols up to "
         "sigma12_len, and over the 36-symbol extended alphabet up to sigx_len; each tokenised with BUFSIZ = 1..len+1 "
-        "and 4096. A case is one string (distinct by construction within a family); non-trivial = the reference run "
+        "and 4096; additionally every string over the 26-symbol alphabet up to seek_len is tokenised after seek(k) for every k "
+        "(all buffer sizes again). A case is one string (distinct by construction within a family); non-trivial = the reference run "
         "yields at least one token. states = strings (nodes of the string tree), transitions = (string, BUFSIZ) runs, "
         "traces = strings whose every run was compared with the single-buffer reference."
     ),
@@ -72,12 +73,14 @@ def canon_tok(t):
     return (type(t).__name__, t)
 
 
-def tokenize(data: bytes, bufsiz: int):
+def tokenize(data: bytes, bufsiz: int, seek: int = 0):
     """Return (tokens, problems). problems is a list of (kind, detail)."""
     p = CountingParser(io.BytesIO(data))
     p.BUFSIZ = bufsiz
     p.nfill = 0
     p.budget = 8 * len(data) + 64
+    if seek:
+        p.seek(seek)
     toks = []
     problems = []
     try:
@@ -135,6 +138,29 @@ def check_string(data: bytes, st, fam: str) -> None:
     st.traces += 1
 
 
+def check_seek(data: bytes, st) -> None:
+    """after seek(k) the token sequence (with absolute positions) is the same for every buffer size,
+    positions are >= k, and only PSEOF escapes"""
+    for k in range(1, len(data) + 1):
+        ref, prob = tokenize(data, 4096, seek=k)
+        st.states += 1
+        st.transitions += 1
+        st.case(None, nontrivial=bool(ref), outcome=("seek", tuple(t[1][0] for t in ref)))
+        case = {"data": data, "seek": k}
+        for kind, detail in prob:
+            st.violation(f"C14/{kind}:{detail if kind=='exception' else ''}", {**case, "bufsiz": 4096}, "only PSEOF; positions in range", detail, kind)
+        if any(pos < k for pos, _ in ref):
+            st.violation("C14/position-before-seek", {**case, "bufsiz": 4096}, f">= {k}", [q for q, _ in ref], "token position before the seek offset")
+        for b in range(1, len(data) + 2):
+            toks, prob2 = tokenize(data, b, seek=k)
+            st.transitions += 1
+            for kind, detail in prob2:
+                st.violation(f"C14/{kind}:{detail if kind=='exception' else ''}", {**case, "bufsiz": b}, "only PSEOF; positions in range", detail, kind)
+            if toks != ref and not prob2 and not prob:
+                st.violation("C14/buffer-dependent-after-seek", {**case, "bufsiz": b}, ref, toks, "token sequence after seek differs from single-buffer run")
+        st.traces += 1
+
+
 def shards(tier):
     out = [("sigma", "short")]
     out += [("sigma", i) for i in range(len(SIGMA))]
@@ -142,6 +168,7 @@ def shards(tier):
     out += [("s12", i) for i in range(len(SIGMA12))]
     full = SIGMA + SIGMA_X
     out += [("sx", "short")] + [("sx", i) for i in range(len(full))]
+    out += [("seek", i) for i in range(len(SIGMA))]
     return out
 
 
@@ -156,6 +183,10 @@ def _strings(alpha, prefix, maxlen):
 def run_shard(shard, tier, st):
     b = BOUNDS[tier]
     fam = shard[0]
+    if fam == "seek":
+        for data in _strings(SIGMA, [SIGMA[shard[1]]], b["seek_len"]):
+            check_seek(data, st)
+        return
     if fam == "sigma":
         alpha, maxlen, plen = SIGMA, b["sigma_len"], 1
     elif fam == "s12":
@@ -180,11 +211,14 @@ def replay(case):
 
     st = Stats()
     data = case["data"]
-    ref, prob = tokenize(data, 4096)
-    toks, prob2 = tokenize(data, case["bufsiz"])
+    sk = case.get("seek", 0)
+    ref, prob = tokenize(data, 4096, seek=sk)
+    toks, prob2 = tokenize(data, case["bufsiz"], seek=sk)
     out = []
     for kind, detail in prob2:
         out.append({"signature": f"C14/{kind}:{detail if kind=='exception' else ''}", "expected": "only PSEOF; positions in range", "observed": repr(detail)})
     if toks != ref and not prob2 and not prob:
-        out.append({"signature": "C14/buffer-dependent", "expected": repr(ref), "observed": repr(toks)})
+        out.append({"signature": "C14/buffer-dependent-after-seek" if sk else "C14/buffer-dependent", "expected": repr(ref), "observed": repr(toks)})
+    if sk and any(pos < sk for pos, _ in ref):
+        out.append({"signature": "C14/position-before-seek", "expected": f">= {sk}", "observed": repr(ref)})
     return out
